@@ -43,17 +43,29 @@ type seCore struct {
 	failWrite  int // the n-th Write call fails, accepting half
 	nwrite     int
 	hdrLogged  bool
+	sentinel   []string
 	writeCalls int
 }
 
-// noteHeader logs "H" whenever the code has (again) put the Content-Type into the header map since the
-// last underlying call; the entry is taken out so that setting it again is observable.
+// noteHeader logs "H" whenever the code has (again) assigned the Content-Type since the last underlying
+// call. After logging, the entry is replaced by a private copy, so that a new assignment (another slice) is
+// observable and an append (Header().Add) shows as a second value.
 func (c *seCore) noteHeader() {
-	if v := c.hdr["Content-Type"]; len(v) == 1 && v[0] == "text/event-stream" {
+	v := c.hdr["Content-Type"]
+	if len(v) == 0 {
+		return
+	}
+	if c.sentinel != nil && len(v) == 1 && &v[0] == &c.sentinel[0] {
+		return // untouched since we last looked
+	}
+	if len(v) == 1 && v[0] == "text/event-stream" {
 		c.hdrLogged = true
 		c.log = append(c.log, "H")
-		delete(c.hdr, "Content-Type")
+	} else {
+		c.log = append(c.log, fmt.Sprintf("H!%q", v))
 	}
+	c.sentinel = []string{v[len(v)-1]}
+	c.hdr["Content-Type"] = c.sentinel
 }
 func (c *seCore) Header() http.Header { return c.hdr }
 func (c *seCore) WriteHeader(code int) {
@@ -149,7 +161,7 @@ func seAbstract(log []string, sent []string) (out []string, problems []string) {
 	for i < len(log) {
 		e := log[i]
 		switch {
-		case e == "H" || e == "F+" || e == "F-":
+		case e == "H" || e == "F+" || e == "F-" || strings.HasPrefix(e, "H!"):
 			out = append(out, e)
 			i++
 		case strings.HasPrefix(e, "S:"):
@@ -326,12 +338,21 @@ type svCase struct {
 }
 
 type recProvider struct {
-	subs []sse.Subscription
-	err  error
+	subs    []sse.Subscription
+	err     error
+	send    bool
+	sendErr error
 }
 
 func (p *recProvider) Subscribe(_ context.Context, s sse.Subscription) error {
 	p.subs = append(p.subs, s)
+	if p.err == nil && p.send {
+		// the session starts streaming: the event-stream header must be the one in effect
+		p.sendErr = s.Client.Send(seMessage("m1"))
+		if p.sendErr == nil {
+			p.sendErr = s.Client.Flush()
+		}
+	}
 	return p.err
 }
 func (p *recProvider) Publish(*sse.Message, []string) error { return nil }
@@ -369,7 +390,7 @@ func cmdServe(args []string) {
 				case "multiline":
 					r.Header["Last-Event-Id"] = []string{"a\nb"}
 				}
-				p := &recProvider{}
+				p := &recProvider{send: true}
 				if cs.C.Provider == "err" {
 					p.err = errProvider
 				}
@@ -381,7 +402,13 @@ func cmdServe(args []string) {
 				case "accept-no-topics":
 					s.OnSession = func(http.ResponseWriter, *http.Request) ([]string, bool) { called = true; return nil, true }
 				case "accept-topics":
-					s.OnSession = func(http.ResponseWriter, *http.Request) ([]string, bool) { called = true; return []string{"a", "b"}, true }
+					s.OnSession = func(w http.ResponseWriter, _ *http.Request) ([]string, bool) {
+						called = true
+						w.Header().Set("Content-Type", "application/json") // a middleware's leftover: the session must replace it
+						return []string{"a", "b"}, true
+					}
+				case "accept-empty-topics":
+					s.OnSession = func(http.ResponseWriter, *http.Request) ([]string, bool) { called = true; return []string{}, true }
 				}
 				s.ServeHTTP(w, r)
 				res.eval(1)
@@ -400,12 +427,12 @@ func cmdServe(args []string) {
 					if sub.LastEventID.IsSet() != cs.E.LidSet || (cs.E.LidSet && sub.LastEventID.String() != "id 42") {
 						bad("subscription has LastEventID set=%v %q, spec: set=%v", sub.LastEventID.IsSet(), sub.LastEventID.String(), cs.E.LidSet)
 					}
-					wantT := "[" + sse.DefaultTopic + "]"
+					okTopics := len(sub.Topics) == 1 && sub.Topics[0] == sse.DefaultTopic
 					if cs.E.Topics == "given" {
-						wantT = "[a b]"
+						okTopics = len(sub.Topics) == 2 && sub.Topics[0] == "a" && sub.Topics[1] == "b"
 					}
-					if fmt.Sprint(sub.Topics) != wantT {
-						bad("subscription has topics %v, spec: %s", sub.Topics, wantT)
+					if !okTopics {
+						bad("subscription has topics %q, spec: %s", sub.Topics, cs.E.Topics)
 					}
 					if _, ok := sub.Client.(*sse.Session); !ok {
 						bad("subscription's client is %T, not the session", sub.Client)
@@ -414,7 +441,13 @@ func cmdServe(args []string) {
 				wrote := strings.Join(c.log, " ")
 				switch cs.E.Wrote {
 				case "nothing":
-					if len(c.log) != 0 || c.status != 0 {
+					if cs.E.Subscribed {
+						// the provider sent one message through the session: header, flush, its bytes, flush - nothing else
+						got, probs := seAbstract(c.log, []string{"m1"})
+						if len(probs) > 0 || strings.Join(got, " ") != "H F+ W:m1:full F+" || c.status != 0 || p.sendErr != nil {
+							bad("a session that streamed one message shows %v (problems %v, status %d, send error %v), spec: [H F+ W:m1:full F+]", got, probs, c.status, p.sendErr)
+						}
+					} else if len(c.log) != 0 || c.status != 0 {
 						bad("the server wrote %q although it must write nothing of its own", wrote)
 					}
 				default:
